@@ -119,3 +119,29 @@ def probes(fields, accepts, seed=0, n_random=24):
     rnd = random.Random(1000003 * (seed + 1))
     for _ in range(n_random):
         yield {c: "".join(rnd.choice(CLASS_ALPHABET[k]) for k in cls) for c, (a, b, cls) in fields.items()}
+
+
+def all_values_agreement(ev, cls, acc, computed):
+    """For a few probes (those with the smallest / largest computed digits): validate must accept exactly the computed value
+    among ALL values of the same width and alphabet.  ``computed``: list of (probe dict, args list, digits str).
+    Returns (n evaluations, mismatch or None)."""
+    import itertools
+    todo = []
+    cs = sorted(computed, key=lambda x: x[2])
+    for x in (cs[:2] + cs[-2:] + cs[len(cs) // 2: len(cs) // 2 + 1]):
+        if x not in todo:
+            todo.append(x)
+    n = 0
+    for p, args, digits in todo:
+        if not isinstance(digits, str) or not digits or len(digits) > 2:
+            continue
+        alphabet = "0123456789" if digits.isdigit() else "ABCDEFGHIJKLMNOPQRSTUVWXYZ"
+        for combo in itertools.product(alphabet, repeat=len(digits)):
+            cand = "".join(combo)
+            v = ev.call(cls, "validate", [args, cand])
+            n += 1
+            want = cand == digits
+            if v != ("ret", want):
+                got = f"raises {v[1].name}" if v[0] == "exc" else repr(v[1])
+                return n, (p, f"validate(fields, {cand!r}) gives {got} although compute(fields) = {digits!r}")
+    return n, None
